@@ -25,6 +25,7 @@ type c03Spec struct {
 	Bound int      `json:"bound"`
 	Days  int      `json:"days,omitempty"`
 	Sched []int    `json:"sched,omitempty"` // replay: one schedule
+	Shard, Shards int // heavy explorations are split over worker processes by first-level subtrees
 }
 
 func c03Specs(tier string, seed int) []c03Spec {
@@ -67,7 +68,20 @@ func c03Specs(tier string, seed int) []c03Spec {
 		}
 	}
 	out = append(out, c03Spec{Kind: "race", Conc: 4}, c03Spec{Kind: "race", Conc: 8})
-	return out
+	// split the heavy explorations (bound >= 2 with 3+ lines) into 8 shards each; heavy ones first so that they start early
+	var heavy, light []c03Spec
+	for _, s := range out {
+		if s.Kind == "e3" && len(s.Batch) >= 3 && (s.Bound >= 2 || s.Bound < 0) {
+			for k := 0; k < 8; k++ {
+				t := s
+				t.Shard, t.Shards = k, 8
+				heavy = append(heavy, t)
+			}
+		} else {
+			light = append(light, s)
+		}
+	}
+	return append(heavy, light...)
 }
 
 func init() {
@@ -136,7 +150,7 @@ func c03Run(raw json.RawMessage, c *mc.Ctx) {
 		for _, n := range sp.Batch {
 			lines = append(lines, w.Lines[n])
 		}
-		sc := e3Scenario{WD: root, Lines: lines, Conc: sp.Conc, Bound: sp.Bound, DeadlineS: 140, Schedule: sp.Sched}
+		sc := e3Scenario{WD: root, Lines: lines, Conc: sp.Conc, Bound: sp.Bound, DeadlineS: 140, Schedule: sp.Sched, Shard: sp.Shard, Shards: sp.Shards}
 		if c.Tier == "thorough" {
 			sc.DeadlineS = 3000
 		}
